@@ -321,7 +321,7 @@ func monC05(c *child.Ctx, replay json.RawMessage) {
 	// the enumerated part (boundary values, all truncation lengths, all wrong type
 	// fields) is swept completely by batch 0; the other batches add random cases
 	c.SetExhaustive(true)
-	n := c.Share(c.Pick(100000, 10000000))
+	n := c.Share(c.Pick(400000, 10000000))
 	for i := 0; i < n; i++ {
 		t := 1005 + i%2
 		b := gen.RandBase(r, t)
